@@ -47,7 +47,7 @@ CHECKS = {
    text="All 74954 matrices up to 4x4 (exhaustive) plus seeded strata up to 36x24: rref, pivots, rank, basis change and inverse, null space (annihilated, independent, n-rank, exact for n<=10, well-typed when empty), input unchanged.",
    note="TLC; uniqueness of RREF (model-checked up to 3x3); projection of numpy arrays to nested lists", ref="5 (C18)"),
 
- "C08": dict(cat="model_checking", tech="TLC builder model (all operator lists n=2; strata n<=6) replayed into the APIs; request/config records judged by TLC against ValidStabilizer and the documented configuration set",
+ "C08": dict(cat="model_checking", tech="TLC builder model (all operator lists n=2; strata n<=6) replayed into the APIs; request/config records judged by TLC against ValidStabilizer and the documented configuration set; design-level TLC model of the pipeline for arbitrary requests (PipelineFaults) whose admitted outcomes are compared with the code's",
    text="Arbitrary operator lists (valid or not, both formats) and every (entry point, n in 1..8, name) pair: validate() = ValidStabilizer; a returned preparation circuit is for a valid stabilizer and is stabilised by all given operators; "
         "a returned readout diagonalises all given operators; entry points return iff the pair is one of the 20 advertised ones.",
    note=TLC_BASE, ref="5 (C08)"),
